@@ -178,7 +178,7 @@ class Inst:
     guard: object = None  # (parent, dependents) -> extra params (Filter: blocked)
 
 
-def render_result(inst: Inst, parent, res):
+def _render_generic(inst: Inst, parent, res):
     """canonical description of what the real rule returned"""
     from dask_expr._expr import Expr, Index, Projection
 
@@ -529,13 +529,10 @@ def _render_binop(inst, parent, res):
     return f"child={rendered[0]};child2={rendered[1]};keep={keep};collapse=0"
 
 
-_orig_render = render_result
-
-
-def render_result(inst, parent, res):  # noqa: F811
+def render_result(inst, parent, res):
     if isinstance(inst, _BinopInst):
         return _render_binop(inst, parent, res)
-    return _orig_render(inst, parent, res)
+    return _render_generic(inst, parent, res)
 
 
 def fam_astype(ctx):
@@ -851,9 +848,424 @@ def families(ctx):
             fam_dropna, fam_combine_first, fam_reset_index, fam_io, fam_keyed, fam_rolling, fam_merge, fam_merge_labels, fam_concat, fam_down]
 
 
+# =========================================================================== end-to-end support / failing-input search
+#
+# A case = (program, terminal, selection).  A program builds a frame `x` from the tables L, R with the same code on
+# pandas objects and dask-expr collections; a terminal puts one or several consumers on `x` (several consumers with
+# different column needs = a shared intermediate).  Every case is executed
+#   optimised  vs  pandas                       (labels/order exact, values canonical)
+#   optimised  vs  the unoptimised lowering     (expr.lower_completely() run with dask.get)
+#   optimised on sources widened with unused columns  vs  optimised on the original sources
+
+
+def _tables(wide=False):
+    n = 8
+    L = pd.DataFrame(
+        {
+            "a": np.arange(1, n + 1, dtype="int64"),
+            "b": np.array([0, 3, 2, 1, 0, 3, 2, 1], dtype="int64"),
+            "c": pd.array([0.0, None, 2.0, 1.0, None, 2.0, 0.0, 1.0], dtype="float64"),
+            "k": np.array([5, 2, 7, 0, 3, 6, 1, 4], dtype="int64"),
+            "ab": np.array([10, 20, 30, 40, 50, 60, 70, 80], dtype="int64"),
+        },
+        index=pd.Index(np.arange(n, dtype="int64") * 2),
+    )
+    R = pd.DataFrame(
+        {
+            "k": np.array([0, 1, 2, 3, 5, 9], dtype="int64"),
+            "b": np.array([7, 7, 8, 8, 9, 9], dtype="int64"),
+            "d": np.array([100, 200, 300, 400, 500, 600], dtype="int64"),
+            "k2": np.array([0, 3, 3, 1, 2, 8], dtype="int64"),
+        },
+        index=pd.Index(np.arange(6, dtype="int64") * 3),
+    )
+    if wide:
+        L = pd.concat([pd.Series(np.arange(n) * 11, index=L.index, name="u1"), L[["a", "b"]],
+                       pd.Series(np.arange(n) % 2, index=L.index, name="u2"), L[["c", "k", "ab"]]], axis=1)
+        R = pd.concat([R[["k"]], pd.Series(np.arange(6) * 7, index=R.index, name="u3"), R[["b", "d", "k2"]]], axis=1)
+    return {"L": L, "R": R}
+
+
+_ENVS = {}
+
+
+def _envs(wide, source="pandas"):
+    import dask_expr as dx
+
+    key = (wide, source)
+    if key not in _ENVS:
+        t = _tables(wide)
+        if source == "pandas":
+            d = {"L": dx.from_pandas(t["L"], npartitions=3, sort=False), "R": dx.from_pandas(t["R"], npartitions=2, sort=False),
+                 "L1": dx.from_pandas(t["L"], npartitions=1, sort=False)}
+        else:  # from_map with a `columns` argument: FromMapProjectable
+            def mk(pdf, cuts):
+                parts = [pdf.iloc[cuts[i]:cuts[i + 1]] for i in range(len(cuts) - 1)]
+                return dx.from_map(_ColReader(parts), list(range(len(parts))), meta=pdf.iloc[:0])
+
+            d = {"L": mk(t["L"], [0, 3, 6, 8]), "R": mk(t["R"], [0, 2, 6]), "L1": mk(t["L"], [0, 8])}
+        _ENVS[key] = (t | {"L1": t["L"]}, d)
+    return _ENVS[key]
+
+
+class _ColReader:
+    def __init__(self, parts):
+        self.parts = parts
+
+    def __call__(self, i, columns=None):
+        p = self.parts[i]
+        return p.copy() if columns is None else p[columns].copy()
+
+    def __dask_tokenize__(self):
+        from dask.base import tokenize
+
+        return ("ColReader", tokenize(self.parts))
+
+
+def _dd(x):
+    return hasattr(x, "expr")
+
+
+def _concat(xs, **kw):
+    if _dd(xs[0]):
+        import dask_expr as dx
+
+        return dx.concat(xs, **kw)
+    return pd.concat(xs, **kw)
+
+
+@dataclass
+class Prog:
+    name: str
+    fn: object  # env -> frame
+    site: str  # the rule family it exercises
+    trigger: str = ""  # the shape that matters for the rule (part of the failure signature)
+    unordered: bool = False
+    noindex: bool = False
+    sels: object = None  # explicit selections (else derived from the pandas result's columns)
+
+
+NUM = ["a", "b", "c", "k"]
+
+
+def _programs():
+    P = []
+
+    def add(name, fn, site, trigger="", **kw):
+        P.append(Prog(name, fn, site, trigger, **kw))
+
+    # --- relabelling
+    add("rename", lambda t: t["L"].rename(columns={"a": "A"}), "RenameFrame")
+    add("rename_swap", lambda t: t["L"].rename(columns={"a": "b", "b": "a"}), "RenameFrame", "swap")
+    add("rename_nokey", lambda t: t["L"].rename(columns={"a": "A", "zz": "a"}), "RenameFrame", "mapping key is not a column")
+    add("rename_chain", lambda t: t["L"].rename(columns={"a": "A"}).rename(columns={"A": "a2", "b": "A"}), "RenameFrame", "chain")
+    add("prefix", lambda t: t["L"].add_prefix("p_"), "AddPrefix")
+    add("suffix", lambda t: t["L"].add_suffix("_s"), "AddSuffix")
+    add("suffix_empty", lambda t: t["L"].add_suffix(""), "AddSuffix", "empty suffix")
+    add("prefix_set_index", lambda t: t["L"].add_prefix("p_").set_index("p_k"), "AddPrefix+SetIndex", unordered=True)
+    add("prefix_sort", lambda t: t["L"].add_prefix("p_").sort_values(["p_b", "p_a"]), "AddPrefix+SortValues")
+    # --- assign / astype / elemwise
+    add("assign_new", lambda t: t["L"].assign(z=t["L"].a + t["L"].b), "Assign")
+    add("assign_over", lambda t: t["L"].assign(a=t["L"].a * 2), "Assign", "overwrite")
+    add("assign_two", lambda t: t["L"].assign(z=t["L"].a + 1, y=t["L"].b * 2), "Assign", "two keys")
+    add("assign_chain", lambda t: t["L"].assign(z=t["L"].a + 1).assign(y=lambda d: d.z * 2) if not _dd(t["L"]) else
+        (lambda x: x.assign(y=x.z * 2))(t["L"].assign(z=t["L"].a + 1)), "Assign", "uses created column")
+    add("astype_dict", lambda t: t["L"].astype({"a": "float64"}), "AsType", "dict dtypes")
+    add("astype_dict2", lambda t: t["L"].astype({"a": "float64", "ab": "float32"}), "AsType", "dict dtypes")
+    add("astype_all", lambda t: t["L"].astype("float64"), "AsType")
+    add("fillna", lambda t: t["L"].fillna(0), "passthrough")
+    add("abs", lambda t: t["L"].abs(), "passthrough")
+    add("clip", lambda t: t["L"].clip(lower=1, upper=5), "passthrough")
+    add("isin", lambda t: t["L"].isin([0, 1, 2]), "passthrough")
+    add("where", lambda t: t["L"].where(t["L"] > 1, -1), "passthrough")
+    add("round_dict", lambda t: t["L"].round({"c": 0}), "passthrough", "dict parameter")
+    add("neg", lambda t: -t["L"], "passthrough")
+    add("cumsum", lambda t: t["L"][["a", "b", "k"]].cumsum(), "Cumulative")
+    add("diff", lambda t: t["L"][["a", "b", "k"]].diff(1), "passthrough")
+    add("repartition", lambda t: t["L"].repartition(npartitions=2) if _dd(t["L"]) else t["L"], "passthrough")
+    add("categorize", lambda t: (t["L"].assign(b=t["L"].b.astype("str")).categorize(columns=["b"]) if _dd(t["L"])
+        else t["L"].assign(b=t["L"].b.astype("str").astype("category"))), "Categorize", "_projection_passthrough with column-keyed parameter")
+    # --- row selecting / reordering with implicit keys
+    add("filter", lambda t: t["L"][t["L"].a > 2], "Filter")
+    add("filter2", lambda t: (lambda x: x[x.b < 3])(t["L"][t["L"].a > 1]), "Filter", "two filters")
+    add("dropna_sub", lambda t: t["L"].dropna(subset=["c"]), "DropnaFrame", "subset")
+    add("dropna", lambda t: t["L"].dropna(), "DropnaFrame")
+    add("dropdup", lambda t: t["L"].drop_duplicates(subset=["b"]), "DropDuplicates", "subset", unordered=True)
+    add("sort", lambda t: t["L"].sort_values(["b", "a"]), "SortValues")
+    add("set_index", lambda t: t["L"].set_index("k"), "SetIndex", unordered=True)
+    add("set_index_nodrop", lambda t: t["L"].set_index("k", drop=False), "SetIndex", "drop=False", unordered=True)
+    add("shuffle", lambda t: t["L"].shuffle("b", shuffle_method="tasks") if _dd(t["L"]) else t["L"], "Shuffle", unordered=True)
+    add("nlargest", lambda t: t["L"].nlargest(3, "a"), "NLargest")
+    add("nsmallest2", lambda t: t["L"].nsmallest(3, ["b", "a"]), "NLargest", "two ordering columns")
+    add("sort_head", lambda t: t["L"].sort_values("a").head(3, npartitions=-1, compute=False) if _dd(t["L"]) else t["L"].sort_values("a").head(3), "NLargest", "NFirst")
+    add("reset_index", lambda t: t["L"].reset_index(), "ResetIndex", noindex=True)
+    add("reset_index_drop", lambda t: t["L"].reset_index(drop=True), "ResetIndex", "drop", noindex=True)
+    add("reset_index_named", lambda t: t["L"].set_index("k").reset_index(), "ResetIndex", "named index", unordered=True, noindex=True)
+    add("reset_index_colindex", lambda t: t["L"].rename(columns={"ab": "index"}).reset_index(), "ResetIndex", "input has a column 'index'", noindex=True)
+    add("drop", lambda t: t["L"].drop(columns=["a", "c"]), "Drop")
+    add("rolling", lambda t: t["L1"][["a", "b", "k"]].rolling(2).sum(), "RollingReduction", "not grouped")
+    add("explode", lambda t: t["L"].explode("b"), "passthrough")
+    # --- groupby
+    add("gb_sum", lambda t: t["L"].groupby("b").sum(), "groupby", unordered=True)
+    add("gb_count2", lambda t: t["L"].groupby(["b", "k"]).count(), "groupby", "two keys", unordered=True)
+    add("gb_agg", lambda t: t["L"].groupby("b").agg({"a": "sum", "c": "max"}), "groupby", "dict spec", unordered=True)
+    add("gb_first", lambda t: t["L"].groupby("b").first(), "groupby", unordered=True)
+    add("gb_cumsum", lambda t: t["L"].groupby("b").cumsum(), "groupby", "transform")
+    add("gb_dropna_key", lambda t: t["L"].dropna(subset=["c"]).groupby("b").sum(), "DropnaFrame+groupby", unordered=True)
+    add("gb_cov", lambda t: t["L"][["a", "b", "k", "ab"]].groupby("b").cov(), "groupby", "cross-column aggregation", unordered=True)
+    # --- reductions (labels of the result are column names)
+    add("sum", lambda t: t["L"].sum(), "Reduction", "list selection of a 1-d result")
+    add("max", lambda t: t["L"].max(), "Reduction", "list selection of a 1-d result")
+    add("corr", lambda t: t["L"][["a", "b", "k"]].corr(), "Reduction", "cross-column reduction")
+    add("mode", lambda t: t["L"][["a", "b"]].mode(), "Reduction", "padded per-column results", noindex=True)
+    # --- two inputs
+    for how in ("inner", "left"):
+        add(f"merge_{how}", lambda t, how=how: t["L"].merge(t["R"], on="k", how=how), "Merge", "on", unordered=True, noindex=True)
+    add("merge_sfx", lambda t: t["L"].merge(t["R"], on="k", suffixes=("_l", "")), "Merge", "empty right suffix", unordered=True, noindex=True)
+    add("merge_lr", lambda t: t["L"].merge(t["R"], left_on="b", right_on="k2"), "Merge",
+        "left_on != right_on, a key names a column of the other side", unordered=True, noindex=True)
+    add("merge_rl", lambda t: t["R"].merge(t["L"], left_on="k2", right_on="b"), "Merge",
+        "left_on != right_on, a key names a column of the other side", unordered=True, noindex=True)
+    add("merge_lr_nocoll", lambda t: t["L"][["a", "k", "c"]].merge(t["R"][["k2", "d"]], left_on="k", right_on="k2"), "Merge",
+        "left_on != right_on", unordered=True, noindex=True)
+    add("merge_index", lambda t: t["L"].merge(t["R"], left_index=True, right_index=True), "Merge", "index join", unordered=True)
+    add("merge_twokeys", lambda t: t["L"].merge(t["R"].rename(columns={"d": "a"}), on=["k"]), "Merge", "collision of non-keys", unordered=True, noindex=True)
+    add("concat0", lambda t: _concat([t["L"], t["L"].assign(a=t["L"].a + 10)]), "Concat", "same schema")
+    add("concat0_diff", lambda t: _concat([t["L"][["a", "b"]], t["R"][["b", "d"]]]), "Concat", "an input may contribute no requested column")
+    add("concat0_inner", lambda t: _concat([t["L"][["a", "b", "k"]], t["R"][["b", "k", "d"]]], join="inner"), "Concat", "inner")
+    add("concat1", lambda t: _concat([t["L"][["a", "b"]], t["L"][["c", "k"]]], axis=1), "Concat", "axis=1 same index")
+    add("binop_co", lambda t: t["L"][NUM] + t["L"][NUM].fillna(1), "Binop", "co-aligned, same columns")
+    add("binop_scalar", lambda t: t["L"][NUM] * 2, "Binop", "scalar")
+    add("binop_diffcols", lambda t: t["L"][["a", "b"]] + t["L"][["b", "k"]], "Binop", "operands with different columns")
+    add("binop_unaligned", lambda t: t["L"][["a", "b"]] + t["L1"][["a", "b"]], "OpAlignPartitions", "_projection_passthrough with a second frame operand")
+    add("combine_first", lambda t: t["L"][["a", "c"]].combine_first(t["L"][["c", "k"]]), "CombineFirst")
+    return P
+
+
+def _selections(cols, rng, full):
+    cols = [c for c in cols]
+    sels = [[c] for c in cols] + [c for c in cols]
+    pairs = [list(p) for p in itertools.permutations(cols, 2)]
+    triples = [list(p) for p in itertools.permutations(cols, 3)]
+    if not full:
+        rng.shuffle(pairs)
+        rng.shuffle(triples)
+        pairs, triples = pairs[:3], triples[:1]
+    return sels + pairs + triples
+
+
+# terminals: one or several consumers on the intermediate `x`
+def _terminals():
+    def t_sel(x, sel, aux):
+        return x[sel]
+
+    def t_shared_add(x, sel, aux):  # two scalar consumers
+        return x[sel[0]] + x[aux]
+
+    def t_shared_concat(x, sel, aux):  # two list consumers, reassembled side by side
+        return _concat([x[sel], x[[aux]]], axis=1)
+
+    def t_filter_sel(x, sel, aux):  # a Filter, its predicate and the result all read `x`
+        return x[x[aux] == x[aux]][sel]
+
+    def t_sel_plus_full(x, sel, aux):  # a pruned consumer next to a consumer that needs everything
+        return x[sel].count().sum() + x.count().sum()
+
+    return [("sel", t_sel, False), ("shared_add", t_shared_add, True), ("shared_concat", t_shared_concat, True),
+            ("filter_sel", t_filter_sel, True), ("sel_plus_full", t_sel_plus_full, True)]
+
+
+_TERMS = dict((n, (f, s)) for n, f, s in _terminals())
+_PROGS = None
+
+
+def _prog(name):
+    global _PROGS
+    if _PROGS is None:
+        _PROGS = {p.name: p for p in _programs()}
+    return _PROGS[name]
+
+
+def _compute(x, optimize=True):
+    import dask
+
+    if not hasattr(x, "expr"):
+        return x
+    if optimize:
+        return x.compute()
+    expr = x.expr.lower_completely()
+    g = dict(expr.__dask_graph__())
+    out = dask.get(g, expr.__dask_keys__())
+    from dask_expr._collection import new_collection
+
+    post, extra = new_collection(expr).__dask_postcompute__()
+    return post(out, *extra)
+
+
+def _labels(x):
+    if isinstance(x, pd.DataFrame):
+        return ("frame", [str(c) for c in x.columns])
+    if isinstance(x, pd.Series):
+        return ("series", str(x.name))
+    return ("scalar", None)
+
+
+def run_case(case):
+    """-> None when the property holds on this case, else (kind, message)"""
+    prog = _prog(case["prog"])
+    term, _shared = _TERMS[case["term"]]
+    sel, aux = case["sel"], case.get("aux")
+
+    def build(env):
+        return term(prog.fn(env), sel, aux)
+
+    pdenv, ddenv = _envs(False, case.get("source", "pandas"))
+    try:
+        want = build(pdenv)
+    except Exception:  # noqa: BLE001
+        return None  # pandas itself rejects the query: outside the quantifier
+    if isinstance(want, (pd.DataFrame, pd.Series)) and isinstance(want.index, pd.MultiIndex) and prog.noindex:
+        return None
+    sort_rows = prog.unordered
+    drop_index = prog.noindex
+    try:
+        q = build(ddenv)
+    except Exception as ex:  # noqa: BLE001
+        return ("unsupported", f"{type(ex).__name__}: {str(ex)[:120]}")
+    r = e2e.run_or_err(lambda: _compute(q, True))
+    if r[0] == "err":
+        u = e2e.run_or_err(lambda: _compute(build(ddenv), False))
+        if u[0] == "err":
+            return ("both-raise", f"{r[1]}")
+        return ("raises", f"optimised raises {r[1]}: {r[2]} (unoptimised plan computes); simplified: {_safe_simplify(q)}")
+    got = r[1]
+    if _labels(got) != _labels(want):
+        return ("labels", f"labels/kind {_labels(got)} != pandas {_labels(want)}; simplified: {_safe_simplify(q)}")
+    if not e2e.same(got, want, sort_rows=sort_rows, drop_index=drop_index):
+        u = e2e.run_or_err(lambda: _compute(build(ddenv), False))
+        unopt_ok = u[0] == "ok" and e2e.same(u[1], want, sort_rows=sort_rows, drop_index=drop_index)
+        if unopt_ok:
+            return ("differs", f"optimised result differs from pandas and from the unoptimised plan: got {e2e.describe(got, 6)!r:.300} "
+                               f"want {e2e.describe(want, 6)!r:.300}; simplified: {_safe_simplify(q)}")
+        return ("differs-also-unoptimised", "")
+    u = e2e.run_or_err(lambda: _compute(build(ddenv), False))
+    if u[0] == "ok" and not e2e.same(u[1], got, sort_rows=sort_rows, drop_index=drop_index):
+        return ("unopt-differs", "")
+    # widened sources: same query, same answer
+    wpd, wdd = _envs(True, case.get("source", "pandas"))
+    try:
+        build(wpd)
+    except Exception:  # noqa: BLE001
+        return None
+    w = e2e.run_or_err(lambda: _compute(build(wdd), True))
+    if w[0] == "err":
+        return ("raises", f"with unused columns added to the sources the optimised query raises {w[1]}: {w[2]}")
+    wwant = build(wpd)
+    if not e2e.same(w[1], wwant, sort_rows=sort_rows, drop_index=drop_index):
+        return ("differs", f"with unused columns added to the sources: got {e2e.describe(w[1], 6)!r:.300} want {e2e.describe(wwant, 6)!r:.300}")
+    return None
+
+
+def _safe_simplify(q):
+    try:
+        return str(q.simplify().expr)[:300]
+    except Exception as ex:  # noqa: BLE001
+        return f"<simplify raises {type(ex).__name__}>"
+
+
+_GENUINE = ("raises", "labels", "differs")
+
+
+def _cases(ctx, broken):
+    rng = ctx.rng
+    pdenv, _ = _envs(False)
+    full = not ctx.quick
+    cases = []
+    for prog in _programs():
+        try:
+            x = prog.fn(pdenv)
+        except Exception:  # noqa: BLE001
+            continue
+        cols = list(x.columns) if isinstance(x, pd.DataFrame) else [str(i) for i in x.index]
+        sels = _selections(cols, rng, full)
+        for sel in sels:
+            cases.append({"prog": prog.name, "term": "sel", "sel": sel})
+        if isinstance(x, pd.DataFrame) and len(cols) >= 2:
+            others = [c for c in cols]
+            for sel in (sels if full else sels[: len(cols)] + sels[-2:]):
+                if not isinstance(sel, list):
+                    continue
+                aux = next((c for c in others if c not in sel), None)
+                if aux is None:
+                    continue
+                for tname in ("shared_add", "shared_concat", "filter_sel", "sel_plus_full"):
+                    if tname == "shared_add" and len(sel) != 1:
+                        continue
+                    cases.append({"prog": prog.name, "term": tname, "sel": sel, "aux": aux})
+    # steer towards disagreeing / broken rules: run every case of the programs exercising that rule first
+    steer_sites = set()
+    for b in broken:
+        txt = (b.get("family") or "") + " " + (b.get("theorem") or "")
+        for prog in _programs():
+            for word in prog.site.replace("+", " ").split():
+                if word.lower() in txt.lower():
+                    steer_sites.add(prog.site)
+    if steer_sites:
+        first = [c for c in cases if _prog(c["prog"]).site in steer_sites]
+        rest = [c for c in cases if _prog(c["prog"]).site not in steer_sites]
+        rng.shuffle(rest)
+        return first + rest[:300]
+    if ctx.quick:
+        # every program keeps its single-column selections; the rest is sampled
+        base_cases = [c for c in cases if c["term"] == "sel" and (not isinstance(c["sel"], list) or len(c["sel"]) == 1)]
+        other = [c for c in cases if c not in base_cases]
+        rng.shuffle(other)
+        per_prog = defaultdict(int)
+        picked = []
+        for c in other:
+            if per_prog[c["prog"]] < 4:
+                per_prog[c["prog"]] += 1
+                picked.append(c)
+        cases = base_cases + picked
+    else:
+        cases += [dict(c, source="from_map") for c in cases if c["term"] in ("sel", "filter_sel")][::3]
+    return cases
+
+
 def support(ctx, broken):
-    return Support()
+    sup = Support()
+    seen = set()
+    budget = 45 if ctx.quick and not broken else (240 if ctx.quick else 3000)
+    import time
+
+    t0 = time.time()
+    for case in _cases(ctx, broken):
+        if time.time() - t0 > budget:
+            break
+        prog = _prog(case["prog"])
+        res = run_case(case)
+        sup.executed += 1
+        sup.count(f"{prog.site}/{case['term']}")
+        if len(sup.samples) < 3 and res is None:
+            sup.samples.append(case)
+        if res is None:
+            continue
+        kind, msg = res
+        sup.count("outcome:" + kind)
+        if kind not in _GENUINE:
+            continue  # unsupported by dask-expr / fails identically without the optimiser: not a C04 matter
+        sig = {"site": prog.site, "trigger": prog.trigger, "kind": kind}
+        key = (prog.site, prog.trigger, kind)
+        if key in seen:
+            continue
+        seen.add(key)
+        sup.failures.append(Failure(sig=sig, case=case, detail=f"{prog.name}/{case['term']} sel={case['sel']!r} aux={case.get('aux')!r}: {msg}"))
+    return sup
 
 
 def replay(case):
-    return None
+    res = run_case(case)
+    if res is None or res[0] not in _GENUINE:
+        return None
+    prog = _prog(case["prog"])
+    return Failure(sig={"site": prog.site, "trigger": prog.trigger, "kind": res[0]}, case=case, detail=res[1])
